@@ -80,6 +80,7 @@ fn main() {
         "hist" => genstream::stream_hist(&mut out, seed, budget),
         "core" => genstream::stream_core(&mut out, seed, budget),
         "huge" => genstream::stream_huge(&mut out, budget),
+        "hugepiece" => genstream::stream_hugepiece(&mut out, seed),
         "parse" => codecstream::stream_parse(&mut out, seed, budget),
         "parse-sweep" => codecstream::stream_parse_sweep(&mut out, seed, budget),
         "fmt" => codecstream::stream_fmt(&mut out, seed, budget),
